@@ -45,6 +45,9 @@ CHECKS['C13'] = dict(cat='exploration', tech='same bounded-exhaustive round-trip
 CHECKS['C07'] = dict(cat='exploration', tech='bounded-exhaustive enumeration of value objects x store routes x read routes on the real library; oracle = deep dump of the caller object taken before storing',
       text='Strings of length 0,1,2,255-257,511-513,5000,70000 (ASCII, BMP, supplementary, multi-line) and syntactically special strings, quoted and unquoted; 31 number spellings plain, quoted and coerced from strings; unknown / n/a; ALL lists and tables with at most 4 (thorough 5) nodes over 6 leaves incl. a quoted number, keys in NFD / empty / case variants; special composites (3000-unit key, 200 elements, depth 6). Each value is stored through set_value, add_packet, add_item and iterator update, the caller object is then overwritten and freed, and the value is read back through get_value, packet iteration and cif_walk and compared field by field (kind, text, quoted, number, su, digits, scale, sign, order, key spelling).',
       note='The parser as a store route is covered by C01. Sizes between the listed lengths are not enumerated.', ref='C07')
+CHECKS['C01'] = dict(cat='exploration', tech='bounded-exhaustive enumeration of generated well-formed documents (all ordered pairs of value tokens x structures x separators, both dialects) parsed by the real cif_parse; content known by construction from an independent generator',
+      text='An independent generator written from the CIF 2.0 and CIF 1.1 grammars produces every document with two value tokens over 41 content atoms (syntactically special strings, 2/3-byte and supplementary characters, embedded newlines, newline-semicolon, trailing backslash, 2040-character value) in every admissible presentation (bare, quoted, triple-quoted, text field, line-folded with and without cuts, prefixed, prefixed+folded), in 8 structures (scalars, loops, list, table with an NFD key, nested composite, save frame, two blocks), with 6 separator styles incl. comments, with and without the version comment. cif_parse must report no error and the dump (blocks, frames, loops, packets, text, quoted status, list order, key-to-value map) must equal the generating AST.',
+      note='N = 2 value tokens per document (every neighbouring token pair in every context); characters outside the atom alphabet are covered through class representatives only. The generator is the trusted statement of the grammar.', ref='C01')
 NOT_APPLICABLE = {}
 
 def main():
